@@ -27,7 +27,9 @@ Definition pk_bpp (ipb : Z) : Z := 8 / ipb.
 Definition pk_mask (ipb : Z) : Z := 2 ^ (pk_bpp ipb) - 1.
 Definition pk_shift (ipb k : Z) : Z := 8 - pk_bpp ipb - k * pk_bpp ipb.
 Definition pack_byte (ipb : Z) (f : Z -> Z) : Z :=
-  zsum (map (fun k => Z.shiftl (Z.land (f k) (pk_mask ipb)) (pk_shift ipb k)) (zseq 0 ipb)).
+  let bpp := pk_bpp ipb in
+  let mask := pk_mask ipb in
+  zsum (map (fun k => Z.shiftl (Z.land (f k) mask) (8 - bpp - k * bpp)) (zseq 0 ipb)).
 Definition unpack_byte (ipb b k : Z) : Z := Z.land (Z.shiftr b (pk_shift ipb k)) (pk_mask ipb).
 
 (* ---- bytearray slice assignment  acc[ofs:ofs+len] = [g 0 .. g (len-1)]  and
